@@ -45,6 +45,16 @@ Theorem C10_marker : forall cfg d x ss,
    exists imgs, run_stmts (c_only_care cfg) ss (d_tabs d) = Some (d_tabs d2, imgs) /\ forallb image_empty imgs = true).
 Proof. exact marker_blocks. Qed.
 
+(* two deliveries of the same rollback racing (or a delivery against any holder of a row lock): the
+   loser's call k fails on the lock; it changes nothing, is not answered 'rollbacked', ends its
+   transaction, and every later sequence of deliveries behaves as if it had never run *)
+Theorem C10_race_loser : forall cfg k d x fs,
+  let r := rollback_branch cfg (Some k) d x in
+  r_fired r = true ->
+  r_db r = d /\ r_out r <> status_ok /\ r_tx_open r = false /\
+  deliver cfg fs (r_db r) x = deliver cfg fs d x.
+Proof. exact race_loser. Qed.
+
 (* the first call of every delivery can fail: the fault quantifier is never empty *)
 Theorem C10_fault_reachable : forall cfg d x, r_fired (rollback_branch cfg (Some 0%nat) d x) = true.
 Proof. exact fault_zero_fires. Qed.
